@@ -47,6 +47,12 @@ def main():
                 f.write("CONSTRAINT CorridorStage1\n")
             r1 = ctx.tlc(m1, m1 + ".cfg", timeout=budget, heap="12g", label="F1_" + tag)
             if not r1.violations:
+                with open(os.path.join(d, m1 + ".cfg")) as f:
+                    c = f.read()
+                with open(os.path.join(d, m1 + ".cfg"), "w") as f:
+                    f.write(c.replace("CONSTRAINT CorridorStage1", "CONSTRAINT CorridorStage1W"))
+                r1 = ctx.tlc(m1, m1 + ".cfg", timeout=budget, heap="12g", label="F1W_" + tag)
+            if not r1.violations:
                 core.log("stage 1 not reached for %s" % tag)
                 continue
             steps1 = cc.trace_to_sched(r1.violations[0]["trace"])["steps"]
